@@ -46,6 +46,29 @@ def session_busy(sid):
 
 
 HANG_CAP = 60.0        # … but not for ever
+LAST_HANG_DIAG = [""]  # what the session looked like when a hang was declared (for replays/c10-environment.log)
+
+
+def session_diag(sid, master):
+    out = []
+    for name in os.listdir("/proc"):
+        if not name.isdigit():
+            continue
+        try:
+            st = open(f"/proc/{name}/stat", "rb").read().decode("latin-1")
+            rest = st[st.rindex(")") + 2:].split()
+            if int(rest[3]) != sid:
+                continue
+            out.append(f"{name}{st[st.index('('):st.rindex(')') + 1]}:{rest[0]}:pgrp={rest[2]}:tpgid={rest[5]}:"
+                       + open(f"/proc/{name}/wchan", "rb").read().decode("latin-1"))
+        except (OSError, ValueError, IndexError):
+            continue
+    try:
+        a = termios.tcgetattr(master)
+        out.append(f"iflag={a[0]:o} oflag={a[1]:o} lflag={a[3]:o}")
+    except Exception as e:
+        out.append("termios:" + type(e).__name__)
+    return " ".join(out)
 
 
 class RemoteSilent(BaseException):
@@ -118,6 +141,7 @@ class RunIO(shellio.FragIO):
                 if total < HANG_CAP and session_busy(self.sid):
                     silent = 0.0
                     continue
+                LAST_HANG_DIAG[0] = session_diag(self.sid, self.master)
                 raise RemoteSilent()
         if self.linger:
             time.sleep(self.linger)
@@ -185,6 +209,11 @@ def cleanup():
 
 import atexit
 atexit.register(cleanup)
+
+
+def drop_all_machines():
+    for key in list(_machines):
+        drop_machine(key)
 
 
 def drop_machine(key):
